@@ -5,7 +5,7 @@
     fn search() {
         let inf = f64::INFINITY;
         let shapes = [
-            VariableType::Real(-inf, inf), VariableType::Real(-inf, 4.0), VariableType::Real(-2.0, inf), VariableType::Real(-3.0, 5.0),
+            VariableType::Real(-inf, inf), VariableType::Real(0.0, inf), VariableType::Real(-inf, 4.0), VariableType::Real(-2.0, inf), VariableType::Real(-3.0, 5.0),
             VariableType::NonNegativeReal(0.0, inf), VariableType::NonNegativeReal(1.0, inf), VariableType::NonNegativeReal(0.0, 6.0),
         ];
         // row sets over (x, y): (coefficients, comparison, rhs)
